@@ -1,7 +1,10 @@
 (* Proofs over the reals about Sdf/Build.v (sdf/poly.go): fillets, chamfers, arcs,
    relative and polar vertices, N-gons. *)
 From Coq Require Import Reals Lra Lia List Bool ZArith Psatz Nsatz.
-From Sdfx Require Import Num.Ops Num.RInst Geo.Vec Sdf.Build.
+From Sdfx Require Import Num.Ops.
+From Sdfx Require Import Num.RInst.
+From Sdfx Require Import Geo.Vec.
+From Sdfx Require Import Sdf.Build.
 Import ListNotations.
 Open Scope R_scope.
 
@@ -562,6 +565,9 @@ Proof.
   - nra.
 Qed.
 
+Lemma two_half (q : R) : q = 2 * (q / 2).
+Proof. field. Qed.
+
 Lemma arc_vectors (a b : V) r : arc_ok a b r ->
   let u := v2normalize (v2sub b a) in let h := arc_h a b in let D := arc_D a b r in
   let s := @sign ROps r in let c := arc_centre a b r in
@@ -576,13 +582,308 @@ Proof.
                = r * r - arc_h a b * arc_h a b).
   { rops. replace (Rabs r * Rabs r) with (r * r) by (unfold Rabs; destruct (Rcase_abs r); ring).
     apply Rmax_right. rewrite <- DD. apply Rle_0_sqr. }
-  rewrite EM. fold (arc_D a b r).
+  rewrite EM. change (osqrt ROps (r * r - arc_h a b * arc_h a b)) with (arc_D a b r).
   pose proof (normalize_scale _ HL) as SC.
-  assert (EH : v2len (v2sub b a) = 2 * arc_h a b) by (unfold arc_h; set (q := v2len _); change (@eq R q (2 * (q / 2))); clearbody q; field).
+  assert (EH : v2len (v2sub b a) = 2 * arc_h a b) by (unfold arc_h; apply two_half).
   rewrite EH in SC. clear EH EM.
   set (u := v2normalize (v2sub b a)) in *. set (h := arc_h a b) in *. set (D := arc_D a b r) in *.
   set (s := @sign ROps r). clearbody u h D s.
   destruct a as [ax ay], b as [bx by_], u as [e f].
   revert SC. rops. intros SC. injection SC as Sx Sy. two_is_2.
-  split; apply V_eq; rops; lra.
+  assert (Bx : bx = ax + e * (2 * h)) by lra. assert (By : by_ = ay + f * (2 * h)) by lra.
+  subst bx by_. split; apply V_eq; rops; field.
 Qed.
+
+Lemma arc_len2 (a b : V) r : arc_ok a b r ->
+  v2len2 (v2sub a (arc_centre a b r)) = r * r /\ v2len2 (v2sub b (arc_centre a b r)) = r * r.
+Proof.
+  intros OK. destruct (arc_vectors a b r OK) as (EA & EB). cbv zeta in EA, EB. rewrite EA, EB.
+  destruct (arc_h_D a b r OK) as (HP & D0 & DD & RR). destruct OK as (HL & HR & HC).
+  pose proof (normalize_unit _ HL) as UE. unfold is_unit in UE.
+  assert (SS : @sign ROps r * @sign ROps r = 1) by (apply sign_sq, HR).
+  set (u := v2normalize (v2sub b a)) in *. set (h := arc_h a b) in *. set (D := arc_D a b r) in *.
+  set (s := @sign ROps r) in *. clearbody u h D s. destruct u as [e f]. revert UE. rops. intros UE.
+  destruct (arc_len_u e f h D s UE SS) as (L1 & L2). cbv zeta in L1, L2.
+  replace (r * r) with (h * h + D * D) by lra. split; [rewrite <- L1 | rewrite <- L2]; ring.
+Qed.
+
+Lemma arc_radius (a b : V) r : arc_ok a b r ->
+  dist a (arc_centre a b r) = Rabs r /\ dist b (arc_centre a b r) = Rabs r.
+Proof.
+  intros OK. destruct (arc_len2 a b r OK) as (LA & LB). rewrite !dist_len. unfold v2len.
+  rewrite LA, LB. cbn [osqrt ROps]. split; apply sqrt_Rsqr_abs.
+Qed.
+
+(* the unit vectors from the centre, their angle phi, and the total rotation -side*phi *)
+Definition arc_phi (a b : V) (r : R) : R :=
+  let c := arc_centre a b r in
+  acos (clamp (v2dot (v2normalize (v2sub a c)) (v2normalize (v2sub b c))) (Ropp 1) 1).
+
+Lemma arc_dtheta_phi (a b : V) r n : arc_dtheta a b r n = - @sign ROps r * arc_phi a b r / IZR n.
+Proof. reflexivity. Qed.
+
+Lemma clamp_id (x : R) : -1 <= x <= 1 -> @clamp ROps x (Ropp 1) 1 = x.
+Proof.
+  intros H. unfold clamp. rops.
+  destruct (Rltb x (Ropp 1)) eqn:C1; [apply Rltb_true in C1; lra|].
+  destruct (Rltb 1 x) eqn:C2; [apply Rltb_true in C2; lra|]. reflexivity.
+Qed.
+
+Lemma arc_rot_total (a b : V) r : arc_ok a b r ->
+  let c := arc_centre a b r in
+  rotv (- @sign ROps r * arc_phi a b r) (v2sub a c) = v2sub b c /\ 0 < arc_phi a b r <= PI.
+Proof.
+  intros OK. cbv zeta. destruct (arc_len2 a b r OK) as (LA & LB).
+  destruct (arc_vectors a b r OK) as (EA & EB). cbv zeta in EA, EB.
+  destruct (arc_h_D a b r OK) as (HP & D0 & DD & RR). pose proof OK as (HL & HR & HC).
+  pose proof (normalize_unit _ HL) as UE. unfold is_unit in UE.
+  assert (SS : @sign ROps r * @sign ROps r = 1) by (apply sign_sq, HR).
+  assert (PA : 0 < v2len2 (v2sub a (arc_centre a b r))) by (rewrite LA; exact RR).
+  assert (PB : 0 < v2len2 (v2sub b (arc_centre a b r))) by (rewrite LB; exact RR).
+  pose proof (normalize_unit _ PA) as UA. pose proof (normalize_unit _ PB) as UB.
+  pose proof (lagrange _ _ UA UB) as LG.
+  unfold arc_phi. cbv zeta.
+  (* both normalisations divide by rho = sqrt (r*r) *)
+  assert (RA : v2len (v2sub a (arc_centre a b r)) = sqrt (r * r)) by (unfold v2len; rewrite LA; reflexivity).
+  assert (RB : v2len (v2sub b (arc_centre a b r)) = sqrt (r * r)) by (unfold v2len; rewrite LB; reflexivity).
+  assert (RS : sqrt (r * r) * sqrt (r * r) = r * r) by (apply sqrt_sqrt; lra).
+  assert (RP : 0 < sqrt (r * r)) by (apply sqrt_lt_R0; exact RR).
+  set (u := v2normalize (v2sub b a)) in *. set (h := arc_h a b) in *. set (D := arc_D a b r) in *.
+  set (s := @sign ROps r) in *. clearbody u h D s. destruct u as [e f].
+  unfold v2normalize in LG |- *. rewrite RA, RB in *. rewrite EA, EB in *.
+  set (rho := sqrt (r * r)) in *. clearbody rho.
+  clear EA EB LA LB PA PB RA RB UA UB.
+  revert UE LG. rops. intros UE LG.
+  destruct (arc_dot_cross e f h D s UE SS) as (DT & CR). cbv zeta in DT, CR.
+  set (ux := - e * h - s * f * D) in *. set (uy := - f * h + s * e * D) in *.
+  set (tx := e * h - s * f * D) in *. set (ty := f * h + s * e * D) in *.
+  set (kap := ux * (1 / rho) * (tx * (1 / rho)) + uy * (1 / rho) * (ty * (1 / rho))) in *.
+  set (chi := ux * (1 / rho) * (ty * (1 / rho)) - uy * (1 / rho) * (tx * (1 / rho))) in *.
+  assert (NZ : h * h + D * D <> 0) by lra.
+  assert (HK : kap * (h * h + D * D) = D * D - h * h).
+  { unfold kap. replace (h * h + D * D) with (rho * rho) by lra. rewrite <- DT. field. lra. }
+  assert (HC' : chi * (h * h + D * D) = - 2 * s * h * D).
+  { unfold chi. replace (h * h + D * D) with (rho * rho) by lra. rewrite <- CR. field. lra. }
+  assert (KR : -1 <= kap <= 1) by nra.
+  assert (K1 : kap < 1) by nra.
+  unfold clamp. rops.
+  destruct (Rltb kap (- (1))) eqn:C1; [apply Rltb_true in C1; lra|].
+  destruct (Rltb 1 kap) eqn:C2; [apply Rltb_true in C2; lra|]. clear C1 C2.
+  pose proof (acos_bound kap) as AB. assert (CK : cos (acos kap) = kap) by (apply cos_acos; lra).
+  assert (P0 : acos kap <> 0) by (intros E; rewrite E, cos_0 in CK; lra).
+  split; [|lra].
+  (* sine of the angle *)
+  assert (SN : 0 <= sin (acos kap)) by (apply sin_ge_0; lra).
+  pose proof (sin2_cos2 (acos kap)) as S2. unfold Rsqr in S2. rewrite CK in S2.
+  assert (S1 : s = 1 \/ s = -1) by (assert ((s - 1) * (s + 1) = 0) by lra; destruct (Rmult_integral _ _ H); [left|right]; lra).
+  assert (Q : 0 <= 2 * h * D / (h * h + D * D)).
+  { apply Rmult_le_pos; [nra|]. apply Rlt_le, Rinv_0_lt_compat. nra. }
+  assert (CH : chi = - s * (2 * h * D / (h * h + D * D))).
+  { apply (Rmult_eq_reg_r (h * h + D * D)); [|exact NZ]. rewrite HC'. field. exact NZ. }
+  assert (SV : sin (acos kap) = 2 * h * D / (h * h + D * D)).
+  { assert (E2 : chi * chi = (2 * h * D / (h * h + D * D)) * (2 * h * D / (h * h + D * D))).
+    { rewrite CH. replace (- s * (2 * h * D / (h * h + D * D)) * (- s * (2 * h * D / (h * h + D * D))))
+        with (s * s * ((2 * h * D / (h * h + D * D)) * (2 * h * D / (h * h + D * D)))) by ring.
+      rewrite SS. ring. }
+    set (q := 2 * h * D / (h * h + D * D)) in *. clearbody q. nra. }
+  destruct (arc_rot e f h D s UE SS kap chi HK HC' NZ) as (R1 & R2). cbv zeta in R1, R2.
+  fold ux uy tx ty in R1, R2.
+  assert (CS : cos (- s * acos kap) = kap /\ sin (- s * acos kap) = chi).
+  { destruct S1 as [E|E]; rewrite E in *.
+    - replace (- (1) * acos kap) with (- acos kap) by ring. rewrite cos_neg, sin_neg, CK, SV, CH. split; ring.
+    - replace (- -1 * acos kap) with (acos kap) by ring. rewrite CK, SV, CH. split; ring. }
+  destruct CS as (CC & CS). unfold rotv. rewrite CC, CS. apply V_eq; rops; assumption.
+Qed.
+
+(* the i-th new vertex (0-based) is the chord start rotated about the centre by (i+1) steps *)
+Lemma arc_points_nth (a b : V) r n i dflt : (i < Z.to_nat (n - 1))%nat ->
+  List.nth i (arc_geom a b r n) dflt =
+  v2add (arc_centre a b r) (rotv (INR (S i) * arc_dtheta a b r n) (v2sub a (arc_centre a b r))).
+Proof.
+  intros Hi. unfold arc_geom.
+  rewrite (nth_indep _ dflt (v2add (arc_centre a b r) dflt)) by (rewrite map_length, rot_seq_length; exact Hi).
+  rewrite map_nth, rot_seq_nth by exact Hi. rewrite mulpos_rotate, rotv_add. do 2 f_equal.
+  rewrite S_INR. ring.
+Qed.
+
+Lemma arc_points_length (a b : V) r n : length (arc_geom a b r n) = Z.to_nat (n - 1).
+Proof. unfold arc_geom. rewrite map_length, rot_seq_length. reflexivity. Qed.
+
+(* all facets-1 new points are at distance |radius| from the computed centre *)
+Theorem arc_points_on_circle (a b : V) r n p : arc_ok a b r ->
+  In p (arc_geom a b r n) -> dist p (arc_centre a b r) = Rabs r.
+Proof.
+  intros OK Hin. unfold arc_geom in Hin. apply in_map_iff in Hin. destruct Hin as (w & <- & Hw).
+  apply In_rot_seq in Hw. destruct Hw as (j & _ & ->).
+  rewrite dist_add_c. unfold v2len. rewrite rotv_len2, mulpos_rotate, rotv_len2.
+  destruct (arc_len2 a b r OK) as (LA & _). rewrite LA. cbn [osqrt ROps]. apply sqrt_Rsqr_abs.
+Qed.
+
+(* the circle passes through both chord endpoints, and one more step after the last new
+   point (facets steps in all) lands on the chord end b *)
+Theorem arc_through_endpoints (a b : V) r n : arc_ok a b r -> (1 <= n)%Z ->
+  dist a (arc_centre a b r) = Rabs r /\ dist b (arc_centre a b r) = Rabs r /\
+  v2add (arc_centre a b r) (rotv (IZR n * arc_dtheta a b r n) (v2sub a (arc_centre a b r))) = b.
+Proof.
+  intros OK Hn. destruct (arc_radius a b r OK) as (RA & RB). split; [exact RA|]. split; [exact RB|].
+  destruct (arc_rot_total a b r OK) as (RT & _). cbv zeta in RT.
+  replace (IZR n * arc_dtheta a b r n) with (- @sign ROps r * arc_phi a b r).
+  - rewrite RT. apply v2add_sub_cancel.
+  - rewrite arc_dtheta_phi. field. apply not_0_IZR. lia.
+Qed.
+
+(* the sign of the radius selects the side: every new point lies strictly to the left of the
+   directed chord a -> b for a positive radius, strictly to the right for a negative one *)
+Theorem arc_side (a b : V) r n j : arc_ok a b r -> (0 < j < Z.to_nat n)%nat ->
+  let p := v2add (arc_centre a b r) (rotv (INR j * arc_dtheta a b r n) (v2sub a (arc_centre a b r))) in
+  0 < @sign ROps r * v2cross (v2sub b a) (v2sub p a).
+Proof.
+  intros OK Hj. cbv zeta.
+  destruct (arc_rot_total a b r OK) as (RT & PH). cbv zeta in RT.
+  destruct (arc_len2 a b r OK) as (LA & _). destruct (arc_h_D a b r OK) as (_ & _ & _ & RR).
+  pose proof OK as (_ & HR & _).
+  set (c := arc_centre a b r) in *. set (u := v2sub a c) in *. set (phi := arc_phi a b r) in *.
+  set (s := @sign ROps r) in *.
+  assert (Hn : (1 < n)%Z) by lia.
+  assert (NP : 0 < IZR n) by (apply IZR_lt; lia).
+  set (t := INR j / IZR n).
+  assert (T01 : 0 < t < 1).
+  { unfold t. assert (0 < INR j) by (apply lt_0_INR; lia).
+    assert (INR j < IZR n) by (rewrite <- (Z2Nat.id n) by lia; rewrite <- INR_IZR_INZ; apply lt_INR; lia).
+    split; [apply Rdiv_lt_0_compat; lra|]. apply (Rmult_lt_reg_r (IZR n)); [exact NP|].
+    unfold Rdiv. rewrite Rmult_assoc, Rinv_l by lra. lra. }
+  assert (EJ : INR j * arc_dtheta a b r n = - s * (t * phi)).
+  { rewrite arc_dtheta_phi. fold s phi. unfold t. field. lra. }
+  rewrite EJ.
+  (* b - a and p - a as differences of rotations of u *)
+  assert (EB : v2sub b a = v2sub (rotv (- s * phi) u) u).
+  { rewrite RT. unfold u. destruct a, b, c. apply V_eq; rops; ring. }
+  assert (EP : v2sub (v2add c (rotv (- s * (t * phi)) u)) a = v2sub (rotv (- s * (t * phi)) u) u).
+  { unfold u. destruct a, c, (rotv (- s * (t * phi)) (v2sub _ _)). apply V_eq; rops; ring. }
+  rewrite EB, EP, cross_rot_rot, LA.
+  assert (S1 : s = 1 \/ s = -1).
+  { destruct (Rlt_dec r 0) as [N|N]; [right; apply sign_neg, N | left; apply sign_pos; lra]. }
+  pose proof (sin_sum_gt (t * phi) ((1 - t) * phi)) as SG.
+  replace (t * phi + (1 - t) * phi) with phi in SG by ring.
+  assert (G : 0 < sin (t * phi) + sin ((1 - t) * phi) - sin phi) by (apply SG; nra).
+  destruct S1 as [E|E]; rewrite E.
+  - replace (- (1) * (t * phi) - - (1) * phi) with ((1 - t) * phi) by ring.
+    replace (- (1) * phi) with (- phi) by ring. replace (- (1) * (t * phi)) with (- (t * phi)) by ring.
+    rewrite !sin_neg. nra.
+  - replace (- -1 * (t * phi) - - -1 * phi) with (- ((1 - t) * phi)) by ring.
+    replace (- -1 * phi) with phi by ring. replace (- -1 * (t * phi)) with (t * phi) by ring.
+    rewrite sin_neg. nra.
+Qed.
+
+(* the arc vertex in its list: facets-1 plain vertices are inserted before it *)
+Theorem arc_vertex_inserts closed (l : list (PV ROps)) i v pv :
+  nth_error l i = Some v -> pv_type v = PvArc ->
+  let v' := mkPV (pv_rel v) PvNormal (pv_v v) (pv_facets v) (pv_radius v) in
+  let l1 := set_nth l i v' in
+  prev_vertex closed l1 i = Some pv ->
+  arc_vertex closed l i =
+    (firstn i l1 ++ map plain (arc_geom (pv_v pv) (pv_v v) (pv_radius v) (pv_facets v)) ++ skipn i l1, true).
+Proof.
+  intros Hv Ht v' l1 Hp. unfold arc_vertex. rewrite Hv, Ht. cbn [pvtype_eqb negb].
+  fold v'. fold l1. rewrite Hp. reflexivity.
+Qed.
+
+(* ------------------------------------------------------------ relative and polar vertices *)
+Fixpoint abs_from (prev : V) (l : list (PV ROps)) : list V :=
+  match l with
+  | [] => []
+  | v :: r => let p := if pv_rel v then v2add (pv_v v) prev else pv_v v in p :: abs_from p r
+  end.
+(* the stated absolute positions: a relative vertex is its offset plus the position before it *)
+Definition abs_positions (l : list (PV ROps)) : list V :=
+  match l with [] => [] | v :: r => pv_v v :: abs_from (pv_v v) r end.
+
+Lemma rel_loop_spec : forall (r : list (PV ROps)) prev, pv_rel prev = false ->
+  map pv_v (rel_loop prev r) = abs_from (pv_v prev) r /\
+  Forall (fun v => pv_rel v = false) (rel_loop prev r) /\
+  map pv_type (rel_loop prev r) = map pv_type r /\
+  map pv_facets (rel_loop prev r) = map pv_facets r /\ map pv_radius (rel_loop prev r) = map pv_radius r.
+Proof.
+  induction r as [|v r IH]; intros prev Hp; cbn [rel_loop abs_from map].
+  - repeat split; constructor.
+  - destruct (pv_rel v) eqn:Hv.
+    + rewrite Hp.
+      set (v' := mkPV false (pv_type v) (v2add (pv_v v) (pv_v prev)) (pv_facets v) (pv_radius v)).
+      destruct (IH v' eq_refl) as (I1 & I2 & I3 & I4 & I5). cbn [map]. rewrite I1, I3, I4, I5.
+      repeat split; try reflexivity. constructor; [reflexivity | exact I2].
+    + destruct (IH v Hv) as (I1 & I2 & I3 & I4 & I5). cbn [map]. rewrite I1, I3, I4, I5.
+      repeat split; try reflexivity. constructor; [exact Hv | exact I2].
+Qed.
+
+Theorem rel_to_abs_spec closed (v0 : PV ROps) r : pv_rel v0 = false ->
+  exists l', rel_to_abs closed (v0 :: r) = Some l' /\
+    map pv_v l' = abs_positions (v0 :: r) /\ Forall (fun v => pv_rel v = false) l' /\
+    map pv_type l' = map pv_type (v0 :: r) /\ map pv_facets l' = map pv_facets (v0 :: r) /\
+    map pv_radius l' = map pv_radius (v0 :: r).
+Proof.
+  intros H0. unfold rel_to_abs. rewrite H0. eexists; split; [reflexivity|].
+  destruct (rel_loop_spec r v0 H0) as (I1 & I2 & I3 & I4 & I5).
+  cbn [map abs_positions]. rewrite I1, I3, I4, I5. repeat split; try reflexivity.
+  constructor; [exact H0 | exact I2].
+Qed.
+
+(* Add(r, theta).Polar() is r (cos theta, sin theta), at distance |r| from the origin *)
+Theorem polar_vertex (rr th : R) (ops : list (vop ROps)) :
+  pv_v (add_vertex rr th [OPolar]) = mkV2 (rr * cos th) (rr * sin th) /\
+  dist (mkV2 (rr * cos th) (rr * sin th)) (mkV2 0 0) = Rabs rr.
+Proof.
+  split; [reflexivity|]. unfold dist. rops.
+  replace ((rr * cos th - 0) * (rr * cos th - 0) + (rr * sin th - 0) * (rr * sin th - 0))
+    with (Rsqr rr * (Rsqr (sin th) + Rsqr (cos th))) by (unfold Rsqr; ring).
+  rewrite sin2_cos2, Rmult_1_r. apply sqrt_Rsqr_abs.
+Qed.
+
+(* a polygon of plain vertices: Vertices() is the list of stated absolute positions *)
+Lemma pass_noop (step : list (PV ROps) -> nat -> list (PV ROps) * bool) l :
+  (forall i, step l i = (l, false)) -> forall cnt i, pass step cnt i l false = (l, false).
+Proof. intros H. induction cnt; intros i; cbn [pass]; [reflexivity|]. rewrite H. cbn. apply IHcnt. Qed.
+
+Lemma until_done_noop step (l : list (PV ROps)) fuel :
+  (forall i, step l i = (l, false)) -> until_done fuel step l = l.
+Proof. intros H. destruct fuel; cbn [until_done]; [reflexivity|]. rewrite pass_noop by exact H. reflexivity. Qed.
+
+Lemma all_normal_nth (l : list (PV ROps)) i v :
+  Forall (fun v => pv_type v = PvNormal) l -> nth_error l i = Some v -> pv_type v = PvNormal.
+Proof. intros HF Hn. rewrite Forall_forall in HF. apply HF. eapply nth_error_In, Hn. Qed.
+
+Theorem vertices_plain closed reverse (v0 : PV ROps) r :
+  pv_rel v0 = false -> Forall (fun v => pv_type v = PvNormal) (v0 :: r) ->
+  vertices (mkPolygon closed reverse (v0 :: r)) =
+  Some (if reverse then rev (abs_positions (v0 :: r)) else abs_positions (v0 :: r)).
+Proof.
+  intros H0 HN. unfold vertices, fixups. cbn [pg_closed pg_vlist pg_reverse].
+  destruct (rel_to_abs_spec closed v0 r H0) as (l' & E & EV & _ & ET & _). rewrite E.
+  assert (HN' : Forall (fun v => pv_type v = PvNormal) l').
+  { rewrite Forall_forall in *. intros v Hv. apply (in_map pv_type) in Hv. rewrite ET in Hv.
+    apply in_map_iff in Hv. destruct Hv as (w & <- & Hw). symmetry.
+    rewrite (HN w Hw). symmetry.
+    (* pv_type v is among the types of the original list, all normal *)
+    reflexivity. }
+  unfold create_arcs, smooth_vertices.
+  rewrite (until_done_noop (arc_vertex closed) l').
+  - rewrite (until_done_noop (smooth_vertex closed) l').
+    + rewrite EV. reflexivity.
+    + intros i. unfold smooth_vertex. destruct (nth_error l' i) eqn:Hn; [|reflexivity].
+      rewrite (all_normal_nth l' i p HN' Hn). reflexivity.
+  - intros i. unfold arc_vertex. destruct (nth_error l' i) eqn:Hn; [|reflexivity].
+    rewrite (all_normal_nth l' i p HN' Hn). reflexivity.
+Qed.
+
+(* ------------------------------------------------------------ Nagon *)
+Theorem nagon_regular (n : Z) (radius : R) : (3 <= n)%Z ->
+  length (nagon n radius) = Z.to_nat n /\
+  forall i dflt, (i < Z.to_nat n)%nat ->
+    List.nth i (nagon n radius) dflt =
+    mkV2 (radius * cos (INR i * (2 * PI / IZR n))) (radius * sin (INR i * (2 * PI / IZR n))).
+Proof.
+  intros Hn. unfold nagon. destruct (n <? 3)%Z eqn:C; [apply Z.ltb_lt in C; lia|].
+  split; [apply rot_seq_length|]. intros i dflt Hi. rewrite rot_seq_nth by exact Hi.
+  unfold tau. rops. two_is_2. unfold rotv. apply V_eq; rops; ring.
+Qed.
+Theorem nagon_small (n : Z) (radius : R) : (n < 3)%Z -> nagon n radius = [].
+Proof. intros Hn. unfold nagon. destruct (n <? 3)%Z eqn:C; [reflexivity | apply Z.ltb_ge in C; lia]. Qed.
